@@ -46,12 +46,6 @@ WITNESS = {
     # started in period 5, clock then reads period 3; max_file_size 6, max_retained 1:
     # cleanup keeps app.<day5>.1 (the OLDER record) and deletes app.<day3>.1 (the newest)
     "F-roller-clock": (ROLLER, "daily 6 1 - app .log _ 5 0 - w 3 0 1 7 w 3 0 2 7 f", "backward-clock-order"),
-    # appender "app" (max_retained 1) deletes "app.extra.<day3>.1.log", a rolled file of the sibling appender "app.extra"
-    # (residue of F-roller-prefix: the '.' after the prefix is now required, but the date regex is still unanchored)
-    "F-roller-dotted-sibling": (ROLLER, "daily 5 1 - app .log _ 7 1 d:3:1 w 7 1 1 6 w 7 1 2 7 f", "dotted-sibling-touched"),
-    # prefix "app.2024-01-01.7": every file parses as (2024-01-01, seq 7), numbering restarts at 1,
-    # the second size roll renames onto the first rolled file and destroys record 1
-    "F-roller-dated-prefix": (ROLLER, "never 10 - - app.2024-01-01.7 .log _ 0 0 - w 0 0 1 12 w 0 0 2 12 f", "dated-prefix-clobber"),
 }
 
 
